@@ -89,6 +89,13 @@ impl Context {
         self.do_push_existing(0, false);
     }
 
+    /// Leaves all subprogram calls, so that the main module is current again.
+    pub fn pop_to_main_module(&mut self) {
+        while self.states.len() > 1 {
+            self.do_pop();
+        }
+    }
+
     /// Drops the arguments that were being collected when a statement failed.
     pub fn drop_argument_states(&mut self) {
         // drop all ArgumentState until we hit the first NormalState
